@@ -1,4 +1,5 @@
 """C02 Hermite normal form is the canonical basis of the row lattice (number-theory-linear/src/hnf.rs)."""
+import lib
 from lib import line, Id, Case
 from props import hnf_common as H
 
@@ -57,6 +58,8 @@ def batch_cases(out, mats, tag, size=400, oracle=True):
     for b in batches(mats, size):
         out.append(Case('hnf_with_u_batch', line('hnf_with_u_batch', b), oracle=H.o_hu_batch(b) if oracle else None,
                         always_oracle=oracle, tag=tag))
+
+PROFILES = ('debug', 'release')
 
 def cases(rng, tier):
     th = tier == 'thorough'
@@ -203,4 +206,6 @@ def cases(rng, tier):
         out.append(Case('hnf_with_u', line('hnf_with_u', a), nontrivial=False, tag='edge-ragged-random'))
         out.append(Case('hnf_determinant', line('hnf_determinant', a), nontrivial=False, tag='edge-ragged-random'))
         out.append(Case('hnf_union', line('hnf_union', a, [r[:1] for r in a if r] or [[1]]), nontrivial=False, tag='edge-ragged-random'))
+    # a slice of the cases again on the release build of the implementation (wrapping arithmetic, debug assertions off)
+    out += lib.release_slice(out, rng, 0.1, mode_ops=())
     return out
